@@ -15,7 +15,7 @@ From stdpp Require Import gmap strings.
 Local Open Scope string_scope.
 
 (* ---- helpers for writing cases compactly ---- *)
-Definition u (s : string) : uref := mkUref s 0.
+Definition u (s : string) : string := s.
 Definition cat (a b : string) : string := a ++ b.
 Fixpoint pre (n : nat) (s : string) : string :=
   match n, s with
@@ -120,15 +120,10 @@ Definition fact_ok (s : state) (f : fact) : bool :=
     match outcome_opt (matching s (u repo)) with
     | Some (Some y) =>
       match repo_by_uuid s y with
-      | Some rp =>
-        match ancestry_starts rp name, r with
-        | [], Some [] => true
-        | starts, _ =>
-          existsb (fun n0 => match outcome_opt (ancestry_from rp n0) with
-                             | Some m => opt_eqb str_list_eqb m r
-                             | None => false
-                             end) starts
-        end
+      | Some rp => match outcome_opt (ancestry rp name) with
+                   | Some m => opt_eqb str_list_eqb m r
+                   | None => false
+                   end
       | None => match r with None => true | _ => false end
       end
     | Some None => match r with None => true | _ => false end
@@ -161,54 +156,14 @@ Definition complete (s : state) (fs : list fact) : bool :=
                     | _ => true
                     end) fs.
 
-(* The one place where the code's answer depends on Go's map iteration order is the start node of the
-   ancestry walk behind "uuid:branch~n" (Model.Repo: [ur_pick]); once a merge has given master
-   several lineages the same request can resolve to different nodes, or fail, from call to call.
-   The model covers every order; the check accepts the implementation's answer if SOME order
-   produces it: the picks 0 .. max_pick-1 are tried in turn for all references of the request. *)
-Definition set_pick (p : nat) (x : uref) : uref := mkUref (ur_str x) p.
-Definition req_with_pick (p : nat) (r : req) : req :=
-  match r with
-  | RNewRepo a b c => RNewRepo a b c
-  | RCommit x => RCommit (set_pick p x)
-  | RNewVersion x a f => RNewVersion (set_pick p x) a f
-  | RBranch x b a f => RBranch (set_pick p x) b a f
-  | RTag x t => RTag (set_pick p x) t
-  | RMerge x m ps f => RMerge (set_pick p x) m (List.map (set_pick p) ps) f
-  | RResolve x d ps f => RResolve (set_pick p x) d (List.map (set_pick p) ps) f
-  | RNodeNote x => RNodeNote (set_pick p x)
-  | RNodeLog x => RNodeLog (set_pick p x)
-  | RRepoLog x => RRepoLog (set_pick p x)
-  | RNewData x t n => RNewData (set_pick p x) t n
-  | RRenameData x o n q => RRenameData (set_pick p x) o n q
-  | RDeleteData x n q => RDeleteData (set_pick p x) n q
-  | RDeleteRepo x q => RDeleteRepo (set_pick p x) q
-  end.
-Definition max_pick : nat := 24.
-
-Definition step_agrees (fx : fixes) (s : state) (r : req) (o : oresp) (fs1 : list fact) (p : nat) : option state :=
-  let (s1, out) := step fx s (req_with_pick p r) in
-  match class_of_outcome out with
-  | Some k => if oresp_eqb k o && forallb (fact_ok s1) fs1 && complete s1 fs1 then Some s1 else None
-  | None => None
-  end.
-
-Fixpoint first_pick (fx : fixes) (s : state) (r : req) (o : oresp) (fs1 : list fact) (n p : nat) : option state :=
-  match n with
-  | O => None
-  | S n' => match step_agrees fx s r o fs1 p with
-            | Some s1 => Some s1
-            | None => first_pick fx s r o fs1 n' (S p)
-            end
-  end.
-
 Fixpoint model_run (fx : fixes) (s : state) (fs : list fact) (c : c07case) : bool :=
   match c with
   | [] => true
   | (r, o, ds) :: rest =>
+    let (s1, out) := step fx s r in
     let fs1 := apply_deltas fs ds in
-    match first_pick fx s r o fs1 max_pick 0 with
-    | Some s1 => model_run fx s1 fs1 rest
+    match class_of_outcome out with
+    | Some k => oresp_eqb k o && forallb (fact_ok s1) fs1 && complete s1 fs1 && model_run fx s1 fs1 rest
     | None => false
     end
   end.
@@ -326,6 +281,21 @@ Definition branch_chain_b (fs : list fact) : bool :=
     | _ => false
     end) ns.
 
+(* 6 (continued): every branch has one head, the newest node carrying its name, and root:branch
+   resolves to it -- the default branch ("", addressed as "master") included *)
+Definition head_newest_b (fs : list fact) : bool :=
+  let ns := onodes fs in
+  forallb (fun n =>
+    let rn := nodes_of (on_repo n) ns in
+    let bn := List.filter (fun m => String.eqb (on_br m) (on_br n)) rn in
+    if forallb (fun m => N.leb (on_v m) (on_v n)) bn then
+      let label := if String.eqb (on_br n) "" then "master" else on_br n in
+      forallb (fun f => match f with
+                        | FAddr q r => if String.eqb q (on_repo n ++ ":" ++ label)
+                                       then opt_eqb String.eqb r (Some (on_uuid n)) else true
+                        | _ => true end) fs
+    else true) ns.
+
 (* class codes: 0 holds; 1..6 the clauses above; 7 an error answer changed the observable state *)
 Definition inv_class (fs : list fact) : nat :=
   if negb (single_root_b fs) then 1
@@ -333,14 +303,10 @@ Definition inv_class (fs : list fact) : nat :=
   else if negb (acyclic_b fs) then 3
   else if negb (ids_unique_b fs) then 4
   else if negb (locked_parents_b fs) then 5
-  else if negb (branch_chain_b fs) then 6
+  else if negb (branch_chain_b fs) || negb (head_newest_b fs) then 6
   else 0.
 
-(* branch-versions of master is read through a loop over a Go map and legitimately differs from
-   call to call once a merge has given master several lineages: it is derived from the nodes, so a
-   change of it alone is not a change of state *)
-Definition state_delta (d : delta) : bool :=
-  match d with DSet (FBV _ _ _) | DDel (FBV _ _ _) => false | _ => true end.
+Definition state_delta (d : delta) : bool := true.
 
 Fixpoint spec_run (fs : list fact) (c : c07case) : nat :=
   match c with
@@ -358,31 +324,9 @@ Fixpoint spec_run (fs : list fact) (c : c07case) : nat :=
   end.
 Definition spec_class (c : c07case) : nat := spec_run [] c.
 
-(* ---- the recorded finding (findings/C07.json): the default branch after a merge ----
-   A merge node carries the empty branch name, so merging from a master node V gives V a second
-   child on branch "": master then has two leaves, and "uuid:master~n" / branch-versions/master,
-   which walk the branch from a node found by ranging over a Go map, resolve to either lineage or
-   fail, from call to call.  The deterministic part, visible in the repo info JSON, is judged: in the
-   final facts some repo has two nodes of branch "" that no child continues on branch "".
-   Class 30 is returned only for the corpus case of kind 1 and only if nothing else is wrong with it;
-   every other case is judged by [spec_class] alone. *)
-Definition final_facts (c : c07case) : list fact :=
-  fold_left (fun fs x => apply_deltas fs (snd x)) c [].
-
-Definition default_two_leaves_b (fs : list fact) : bool :=
-  let ns := onodes fs in
-  existsb (fun x =>
-    let rn := nodes_of (fst (fst x)) ns in
-    let dn := List.filter (fun m => String.eqb (on_br m) "") rn in
-    let on_default (v : N) := existsb (fun m => N.eqb (on_v m) v) dn in
-    Nat.leb 2 (length (List.filter (fun m => negb (existsb on_default (on_cs m))) dn))) (orepos fs).
-
+(* cases carry a kind tag (0: ordinary; no other kind is in use) *)
 Definition kcase := (nat * c07case)%type.
-Definition spec_class_k (kc : kcase) : nat :=
-  match spec_class (snd kc) with
-  | O => if Nat.eqb (fst kc) 1 && default_two_leaves_b (final_facts (snd kc)) then 30 else 0
-  | k => k
-  end.
+Definition spec_class_k (kc : kcase) : nat := spec_class (snd kc).
 
 Fixpoint classify_from (i : nat) (l : list kcase) : list (nat * nat) :=
   match l with
